@@ -498,7 +498,7 @@ func genFamily(rng *rand.Rand, family string, idx int, o batOpts) *Scenario {
 		o.maxReenq = 8
 		o.nOps = []int{3, 6, 10}
 		o.costs = []int64{0, 1, 5, 40, 100, 101}
-		o.caps = []int64{100}
+		o.caps = []int64{100, 100, 100, 0} // MaxCapacity 0: every positive cost is too expensive
 		o.maxcapSlack = []int64{0}
 		o.durs = []int64{0, 1*MS + 13}
 		o.gapMS = []int64{150, 400}
